@@ -838,7 +838,7 @@ def rule_algorithms(ctx):
                    {"assumption": "the default argument of set_algorithm is not one of the explicit names "
                                   "(default-argument expressions are not exported)"})
 
-    ctx.floor(TAB, 9, n_sites, "sites encoding the algorithm name set")
+    ctx.floor(TAB, 8, n_sites, "sites encoding the algorithm name set")
     ctx.floor(TAB, 2, len(forwarders), "callers of LocalNetwork::set_algorithm(name)")
     return {"names": U, "ln_map": ln_map, "ils_map": ils_map, "g3_map": g3_map}
 
@@ -1020,7 +1020,7 @@ def rule_who_depends(ctx):
                     "dependency on the algorithm" % (ent["kinds"], kind))
         else:
             ctx.ok(TAB, key, fn.where(node), name, detail={"reason": ent["reason"]})
-    ctx.floor(TAB, 18, n, "sites that look at the solver identity")
+    ctx.floor(TAB, 15, n, "sites that look at the solver identity")
     gone = sorted(set(allowed) - seen_fns)
     if gone:
         ctx.note("R-TAB T4: table entries without a site in the current sources: %s" % gone)
@@ -1174,7 +1174,7 @@ def rule_rm_points(ctx):
                         % (ks, ", ".join(sorted(codes))))
             else:
                 ctx.ok(TAB, key, lst[0][0].where(lst[0][1]), fname, detail={"kind": ks})
-    ctx.floor(TAB, 8, n_calls, "removed(id, code) call sites")
+    ctx.floor(TAB, 7, n_calls, "removed(id, code) call sites")
     return tables, prod
 
 
